@@ -6,7 +6,8 @@
   (`DNA(nested)`) to the DNA they were exported from, under the explicit decidable condition
   `viewNorm` (the DNA is in constructor normal form and only `None` / numeric nodes have
   children); and `from_numbers ∘ to_numbers = id` on every valid DNA of every spec without custom
-  decision points (`C12_numbers`, with the counterexample when the condition is dropped). What is carried by the correspondence run instead of a theorem (labelled as such in
+  decision points (`C12_numbers`, with the counterexample when the condition is dropped); binding
+  a valid DNA succeeds, keeps the numbers and is aligned (`C12_bound_aligned`). What is carried by the correspondence run instead of a theorem (labelled as such in
   the evidence): the 30
   `to_dict` option triples verbatim, the node bindings after every producer
   (`next_dna`, `random_dna`, `from_numbers`, `from_dict`, parse + `use_spec`, `clone`, `Swap`);
@@ -14,6 +15,7 @@
 -/
 import PgProofs.GenoViews
 import PgProofs.GenoNumbers
+import PgProofs.GenoAlign
 import PgModel.Geno.Valid
 namespace Pg.Geno
 
@@ -46,10 +48,16 @@ theorem C12_numbers_counterexample : ¬ C12_numbers_Full := by
   revert this
   decide
 
-/-- Every bound DNA the library hands out is aligned (staged: correspondence compares the binding
-of every node after every producer step). -/
-def C12_aligned_Full : Prop :=
-  ∀ (g : Spec) (d : DNA), g.wf = true → Valid g d → ∃ b, g.annot d = some b ∧ b.erase = d
+/-- Binding a valid DNA (`use_spec`, for every spec: floats and custom points included) always
+succeeds, leaves the raw numbers unchanged, and gives every node the decision point of its own
+position: the bound DNA is `Aligned`. Every producer of the library returns `raw numbers +
+use_spec` (`next_dna`, `random_dna`, `from_numbers`, `from_dict`, parse; `clone` copies the
+bindings; `Swap` re-binds since fix C12-F21) — that the real producers do so is what the
+correspondence compares node by node. -/
+theorem C12_bound_aligned (g : Spec) (d : DNA) (h : Valid g d) :
+    ∃ b, g.annot d = some b ∧ b.erase = d ∧ Aligned g b := by
+  obtain ⟨b, hb, he⟩ := annot_erase g d h
+  exact ⟨b, hb, he, by unfold Aligned; rw [he]; exact hb⟩
 
 /-! ### Non-vacuity: a valid DNA with conditional and multi-choice parts satisfies `viewNorm` -/
 
@@ -62,7 +70,6 @@ def exampleDna12 : DNA :=
 
 example : Valid exampleSpec12 exampleDna12 ∧ viewNorm exampleDna12 = true := by decide
 example : exampleSpec12.fromNumbers (flat exampleDna12) = some exampleDna12 := by decide
-example : ∃ b, exampleSpec12.annot exampleDna12 = some b ∧ b.erase = exampleDna12 := ⟨_, rfl, by decide⟩
 
 /-! ### F21b (fixed): what `to_numbers(flatten=False)` did before the fix -/
 
